@@ -214,6 +214,16 @@ def Stream.submit (s : Stream) (userFrame : Int) (v : Nat) : Stream :=
       let filled := (List.range (target - expected).toNat).foldl (fun a _ => a.push fillV) s.vals
       { s with vals := filled.push v }
 
+/-- A delay change: once a first input exists, an increase repeats the newest input over the
+frames it opens up in front of the next submission. -/
+def Stream.setDelay (s : Stream) (d : Nat) : Stream :=
+  let s := { s with delay := d }
+  if s.vals.size == 0 then s else
+  let target : Int := s.lastUser + 1 + d
+  let fillV := s.vals[s.vals.size - 1]!
+  let n := (target - (s.vals.size : Int)).toNat
+  { s with vals := (List.range n).foldl (fun a _ => a.push fillV) s.vals }
+
 /-- Streams of every local player of a session, derived from its API calls only. -/
 def streamsOf (sc : Scen) (info : SessInfo) : List (Nat × Stream) := Id.run do
   let locals := info.localHandles
@@ -231,7 +241,7 @@ def streamsOf (sc : Scen) (info : SessInfo) : List (Nat × Stream) := Id.run do
     | ["setdelay", h, dl] =>
       if c.result == "ok" then
         let h := h.toNat?.getD 0
-        streams := streams.map fun (k, s) => if k == h then (k, { s with delay := dl.toNat?.getD 0 }) else (k, s)
+        streams := streams.map fun (k, s) => if k == h then (k, s.setDelay (dl.toNat?.getD 0)) else (k, s)
     | ["adv"] =>
       if c.result.startsWith "ok" then
         streams := streams.map fun (k, s) =>
